@@ -418,6 +418,138 @@ def r9_offset_validity_siblings(cx):
     cx.ob("R9", "R9/Offset.is_valid-inclusive", len(le) == 1 and le[0]["rv"]["op"] == "Le", g, "Offset::is_valid(size) is `offset <= size`")
 
 
+def r11_blob_extraction(cx):
+    """reader: blob i of a cluster is [offsets[i], offsets[i+1]) of the plain data"""
+    F = cx.F
+    f = F.one(impl_self="reader::content_pack::cluster::Cluster", item="get_bytes", closure=False)
+    b = F.body(f)
+    idx = b.calls(r"Vec<bases::types::offset::Offset> as std::ops::Index<usize>>::index$")
+    sub = b.calls(r"Offset as std::ops::Sub(<.*>)?>::sub$")
+    gbs = b.calls(r"Reader::get_byte_slice$")
+    bpr = b.calls(r"Cluster::build_plain_reader$")
+    ok = len(idx) == 2 and len(sub) == 1 and len(gbs) == 1 and len(bpr) == 1
+    if ok:
+        def plus_one(op):
+            l = op_local(op)
+            for d in b.defs().get(l, []):
+                if d[0] == "stmt" and d[3]["k"] == "assign":
+                    rv = d[3]["rv"]
+                    if rv["k"] == "bin" and rv["op"] in ("Add", "AddWithOverflow") and op_const_val(rv["b"]) == 1:
+                        return True
+                    if rv["k"] == "use" and op_place(rv["op"]) and op_place(rv["op"]).get("p"):
+                        return plus_one({"cp": {"l": op_place(rv["op"])["l"]}})
+                    if rv["k"] == "use":
+                        return plus_one(rv["op"])
+            return False
+        first = [(i, t) for i, t in idx if not plus_one(t["args"][1])]
+        second = [(i, t) for i, t in idx if plus_one(t["args"][1])]
+        ok = len(first) == 1 and len(second) == 1 and all(("param", 2) in b.origins(t["args"][1]) and ("field", "blob_offsets") in b.origins(t["args"][0]) for _, t in idx)
+        if ok:
+            st = sub[0][1]
+            ok = any(x == ("call", second[0][0]) for x in b.origins(st["args"][0], through_calls=False)) and any(x == ("call", first[0][0]) for x in b.origins(st["args"][1], through_calls=False))
+            gt = gbs[0][1]
+            ok = ok and any(x == ("call", first[0][0]) for x in b.origins(gt["args"][1], through_calls=False)) and any(x == ("call", sub[0][0]) for x in b.origins(gt["args"][2], through_calls=False))
+            ok = ok and b.dominates(bpr[0][0], gbs[0][0])
+    cx.ob("R11", "R11/get_bytes", ok, f, "Cluster::get_bytes(i) = plain_reader.get_byte_slice(offsets[i], offsets[i+1] - offsets[i]) after build_plain_reader()")
+    g = layout.find_parse(F, "ClusterBuilder")
+    gb = F.body(g)
+    push = gb.calls(r"Vec::<bases::types::offset::Offset>::push$")
+    zero = gb.calls(r"Offset::zero$")
+    ok = len(push) == 1 and len(zero) == 1 and not _in_loop(gb, push[0][0]) and _in_loop(gb, zero[0][0])
+    if ok:
+        o = gb.origins(push[0][1]["args"][1])
+        rd = sorted(i for i, t in gb.calls(r"Parser>::read_usized$") if not _in_loop(gb, i))
+        ok = len(rd) == 2 and any(x == ("call", rd[1]) for x in o) and not any(x == ("call", rd[0]) for x in o)
+    cx.ob("R11", "R11/offset-table", ok, g, "ClusterBuilder::parse builds offsets = [0 (implicit), stored end offsets…, data_size]: the pushed last offset is the second sized field (data size), not the stored size")
+
+
+def _in_loop(b, bb):
+    return bb in b.reach_after(bb)
+
+
+def r12_address_resolution(cx):
+    """reader: content id -> (cluster index, blob index) -> bytes, each step keyed by the value read for that content"""
+    F = cx.F
+    f = F.one(impl_self="ContentPack", item="get_content", closure=False, trait="")
+    b = F.body(f)
+    ci = [(i, t) for i, t in b.calls(r"IndexTrait.*>::index$|ArrayReader<.*>::index$") if ("field", "content_infos") in b.origins(t["args"][0], through_calls=False)]
+    gc = b.calls(r"ContentPack::get_cluster$")
+    gb_ = b.calls(r"Cluster::get_bytes$")
+    ok = len(ci) == 1 and len(gc) == 1 and len(gb_) == 1
+    if ok:
+        o1 = b.origins(gc[0][1]["args"][1])
+        o2 = b.origins(gb_[0][1]["args"][1])
+        ok = ("param", 2) in b.origins(ci[0][1]["args"][1]) and ("field", "cluster_index") in o1 and any(x == ("call", ci[0][0]) for x in o1) \
+            and ("field", "blob_index") in o2 and any(x == ("call", ci[0][0]) for x in o2) and any(x == ("call", gc[0][0]) for x in b.origins(gb_[0][1]["args"][0]))
+    cx.ob("R12", "R12/get_content", ok, f, "get_content(i): content_infos[i] -> get_cluster(info.cluster_index) -> cluster.get_bytes(info.blob_index)")
+    g = F.one(impl_self="ContentPack", item="_get_cluster", closure=False)
+    gb = F.body(g)
+    cp = [(i, t) for i, t in gb.calls(r"IndexTrait.*>::index$|ArrayReader<.*>::index$") if ("field", "cluster_ptrs") in gb.origins(t["args"][0], through_calls=False)]
+    pd = gb.calls(r"Reader::parse_data_block::<.*Cluster>$")
+    ok = len(cp) == 1 and len(pd) == 1 and ("param", 2) in gb.origins(cp[0][1]["args"][1]) and any(x == ("call", cp[0][0]) for x in gb.origins(pd[0][1]["args"][1]))
+    cx.ob("R12", "R12/_get_cluster", ok, g, "_get_cluster(c): parse_data_block::<Cluster>(cluster_ptrs[c])")
+    h = F.one(impl_self="ContentPack", item="get_cluster", closure=False)
+    hb = F.body(h)
+    tg = hb.calls(r"LruCache<.*>::try_get_or_insert|LruCache::<.*>::try_get_or_insert")
+    ok = len(tg) == 1 and ("param", 2) in hb.origins(tg[0][1]["args"][1])
+    if ok:
+        cl = [c for c in F.closures_of(h) if "blocks" in c and F.body(c).calls(r"ContentPack::_get_cluster$")]
+        ok = len(cl) == 1
+        if ok:
+            cb = F.body(cl[0])
+            t = cb.calls(r"ContentPack::_get_cluster$")[0][1]
+            # the closure loads the same index it is cached under: both captured from the parameter
+            caps = [s for blk in hb.blocks for s in blk["s"] if s["k"] == "assign" and s["rv"]["k"] == "agg" and s["rv"].get("closure_fn") == cl[0]["id"]]
+            ok = len(caps) == 1 and any(("param", 2) in hb.origins(fo) for fo in caps[0]["rv"]["fields"])
+    cx.ob("R12", "R12/cache-key-is-loaded-index", ok, h, "the cluster cache is keyed by the cluster index that the miss handler loads")
+
+
+def r13_creator_addresses(cx):
+    """creator: the address returned on insertion is the position of the content's info in the table that is
+    written, and the info names the cluster/blob the content was put in"""
+    F = cx.F
+    f = [x for x in F.find(impl_self="ContentPackCreator", item="add_content", closure=False) if x.get("impl_trait") is None][0]
+    b = F.body(f)
+    ac = b.calls(r"ClusterCreator::add_content$")
+    pu = b.calls(r"Vec::<common::content_info::ContentInfo>::push$")
+    ln = b.calls(r"Vec::<common::content_info::ContentInfo>::len$")
+    ca = b.calls(r"ContentAddress::new$")
+    ok = len(ac) == 1 and len(pu) == 1 and len(ln) == 1 and len(ca) == 1
+    if ok:
+        ok = any(x == ("call", ac[0][0]) for x in b.origins(pu[0][1]["args"][1])) and b.dominates(pu[0][0], ln[0][0]) and any(x == ("call", ln[0][0]) for x in b.origins(ca[0][1]["args"][1])) \
+            and ("field", "pack_id") in b.origins(ca[0][1]["args"][0])
+        sub1 = any(s["k"] == "assign" and s["rv"]["k"] == "bin" and s["rv"]["op"] in ("Sub", "SubWithOverflow") and op_const_val(s["rv"]["b"]) == 1 for blk in b.blocks for s in blk["s"])
+        ok = ok and sub1
+    cx.ob("R13", "R13/add_content", ok, f, "add_content pushes the ContentInfo returned by the cluster and returns ContentAddress(pack_id, content_infos.len() - 1)")
+    g = F.one(impl_self="ClusterCreator", item="add_content", closure=False)
+    gb = F.body(g)
+    ci = gb.calls(r"ContentInfo::new$")
+    pd = gb.calls(r"Vec::<std::boxed::Box<dyn creator::InputReader>>::push$")
+    po = gb.calls(r"Vec::<u64>::push$")
+    ln = gb.calls(r"Vec::<u64>::len$")
+    ok = len(ci) == 1 and len(pd) == 1 and len(po) == 1 and len(ln) >= 1
+    if ok:
+        o = gb.origins(ci[0][1]["args"][1])
+        first_len = [i for i, _ in ln if gb.dominates(i, po[0][0])]
+        ok = ("field", "index") in gb.origins(ci[0][1]["args"][0]) and any(x[0] == "call" and x[1] in first_len for x in o) and ("param", 2) in gb.origins(pd[0][1]["args"][1])
+        # new offset = last offset + content size
+        oo = gb.origins(po[0][1]["args"][1])
+        ok = ok and any(x[0] == "call" and call_is(gb.term(x[1]), r"InputReader>::size$") for x in oo) and ("field", "offsets") in oo
+    cx.ob("R13", "R13/ClusterCreator.add_content", ok, g, "the blob index is offsets.len() before the push; data and cumulative end offset are pushed for that same content")
+    h = F.one(impl_self="ContentPackCreator", item="finalize", closure=False)
+    hb = F.body(h)
+    cls = [c for c in F.closures_of(h) if "blocks" in c]
+    addr = [c for c in cls if F.body(c).calls(r"SizedOffset as .*Serializable>::serialize$")]
+    info = [c for c in cls if F.body(c).calls(r"ContentInfo as .*Serializable>::serialize$")]
+    ok = len(addr) == 1 and len(info) == 1
+    if ok:
+        def forward_iter(c):
+            cb = F.body(c)
+            return bool(cb.calls(r"IntoIterator>::into_iter$")) and bool(cb.calls(r"slice::Iter<.*> as std::iter::Iterator>::next$")) and not cb.calls(r"::rev$|::skip$|::step_by$|::filter")
+        ok = forward_iter(addr[0]) and forward_iter(info[0])
+    cx.ob("R13", "R13/tables-written-in-index-order", ok, h, "finalize writes the cluster address table and the content info table by iterating the vectors forward (position = id)")
+
+
 def r10_witness(cx):
     """type-level: ContentPackCreator::finalize consumes the creator (no insertion after finalisation)"""
     import witness
@@ -443,4 +575,7 @@ RULES = [
     ("R8", r8_sampling_rewinds, 1),
     ("R9", r9_offset_validity_siblings, 3),
     ("R10", r10_witness, 1),
+    ("R11", r11_blob_extraction, 2),
+    ("R12", r12_address_resolution, 3),
+    ("R13", r13_creator_addresses, 3),
 ]
